@@ -927,7 +927,20 @@ func fixedCases() []Case {
 	thr := Shape{Pat: 3, Throttles: []Throttle{{Bytes: "2000-6501", BW: 1500}}, Halts: []Halt{{At: 7000, Dur: 30, N: -1}}}
 	// quick: 1500 B/s over 3001 bytes -> 3 chunks -> at least 1 s, entered through the throttle's start action
 	thr3 := Shape{Pat: 3, Throttles: []Throttle{{Bytes: "2000-5001", BW: 1500}}, Halts: []Halt{{At: 7000, Dur: 30, N: -1}}}
-	out = append(out, one("conn", thr3, Resp{Pat: 3, Body: 8000, Head: 100, Seed: 9, Splits: []int{3000, 777}}))
+	_ = thr3
+	// end to end, open-ended throttle entered at 2000 (inside the proxy's first 4 KiB write), no action
+	// after it: 3000 B/s over offsets 2000..8001 -> 3 chunks -> at least 1 s; most of it is body the
+	// proxy hands to ReadFrom
+	out = append(out, one("e2e", Shape{Pat: 3, Var: 1, Throttles: []Throttle{{Bytes: "2000-", BW: 3000}}}, Resp{Pat: 3, Body: 8001, Seed: 9}))
+	// a halt of 1.5 s with count 1 on connection 0; meanwhile two short responses of the same shape on
+	// connection 1 and a configuration POST: none of them waits for that halt
+	dh := Config{Shapes: []Shape{{Pat: 1, Var: 1, Halts: []Halt{{At: 100, Dur: 1500, N: 1}}}}}
+	out = append(out, Case{Level: "conn", Steps: []Step{
+		{Op: "post", Cfg: &dh}, {Op: "open", Conn: 0}, {Op: "open", Conn: 1},
+		{Op: "during-halt", Conn: 0, R: &Resp{Pat: 1, Body: 1000, Head: 50, Seed: 80, Splits: []int{4000}}, Cfg: &dh,
+			Par: []Lane{{Conn: 1, Rs: []Resp{{Pat: 1, Body: 50, Head: 50, Seed: 81}, {Pat: -1, Body: 500, Head: 50, Seed: 82}}}}},
+		{Op: "resp", Conn: 1, R: &Resp{Pat: 1, Body: 50, Head: 50, Seed: 83}},
+	}})
 	// throttles listed in descending order, range start strictly inside the one listed last:
 	// 1000 B/s over offsets 2000..4001 -> 3 chunks -> at least 1 s
 	unsorted := Shape{Pat: 3, Var: 1, Throttles: []Throttle{{Bytes: "9000-", BW: bigBW}, {Bytes: "5000-9000", BW: 2 * bigBW}, {Bytes: "1000-4001", BW: 1000}}}
@@ -957,6 +970,8 @@ func fixedCases() []Case {
 	if kit.Thorough() {
 		out = append(out,
 			one("conn", thr, Resp{Pat: 3, Body: 8000, Head: 100, Seed: 9, Splits: []int{3000, 777}}),
+			one("conn", thr3, Resp{Pat: 3, Body: 8000, Head: 100, Seed: 9, Splits: []int{3000, 777}}),
+			one("e2e", Shape{Pat: 3, Var: 1, Throttles: []Throttle{{Bytes: "0-", BW: 4000}}}, Resp{Pat: 3, Body: 12001, Seed: 18}),
 			one("e2e", unsorted, Resp{Pat: 3, Start: 2000, Body: 6000, Seed: 17}),
 			one("conn", thr, Resp{Pat: 3, Start: 3000, Body: 5000, Head: 64, Seed: 10, Splits: []int{1}}),
 			one("conn", Shape{Pat: 3, Throttles: []Throttle{{Bytes: "-4001", BW: 1000}, {Bytes: "4001-", BW: 2 * bigBW}}, Closes: []CloseAct{{At: 5000, N: 1}}},
